@@ -44,8 +44,8 @@ Qed.
    the port below the pointer *)
 Theorem pipeline_tree_walk_nonvacuous :
   NoDup (map dir_addr (dirs_root fx_tree)) /\ NoDup (app_addresses (app_of_tree fx_tree)) /\
-  walk_tree fx_tree fx_state = [0; 1; 2]%nat /\
-  walk_tree fx_tree (initial (app_of_tree fx_tree)) = [0; 2]%nat.
+  walk_tree fx_tree fx_state = [0; 1; 2; 3]%nat /\
+  walk_tree fx_tree (initial (app_of_tree fx_tree)) = [0; 2; 3]%nat.
 Proof.
   split; [vm_compute; repeat constructor; simpl; intuition discriminate|].
   split; [vm_compute; repeat constructor; simpl; intuition discriminate|].
